@@ -221,6 +221,9 @@ func BuildCallFromExpr(expr *ast.CallExpr, codeFunc *CodeFunction, fields []Code
 			for _, item := range funcLit.Body.List {
 				_, methodCall := BuildMethodCall(codeFunc, item, fields, localVars, imports, packageName)
 
+				if _, deferred := item.(*ast.DeferStmt); deferred {
+					continue // BuildMethodCall has already recorded a deferred call
+				}
 				if methodCall.NodeName != "" {
 					codeFunc.FunctionCalls = append(codeFunc.FunctionCalls, methodCall)
 				}
